@@ -31,6 +31,10 @@ Property theorems only (helpers: `Proofs/Lemmas/Dynamics.lean`; model: `Pose/Mod
   `nls_rollout_time`); the error of the affine model is second order with explicit constants, for `f` and for `g`
   (`second_order`, `nls_second_order`, `second_order_explicit`, `bnd_scale`, `nls_second_order_explicit`,
   `nls_second_order_explicit_obs`).
+* §4b affine systems (an LTI / LTV system written as an NLS; full- / partial-state observations): for components affine in
+  state and input (`Fn.affineIn`, time-dependent coefficients allowed) the affine model is exact **everywhere** and the same for
+  every reference state / input (`nls_affine_exact`, `nls_affine_exact_obs`, `nls_affine_refpoint_irrelevant`,
+  `nls_affine_jacobian_constant`).
 * §7 `nls_read_unchanged_by_calls`; §8 error paths: the code is **not** atomic (`partial_update_defect_witness`,
   `nls_history_last_attempt_raised`); `nls_failed_call_atomic`, `nls_history_without_failed_call` state what atomic error
   paths would give (a variant, not the code). The historical alias variants (D32, D38) are in `Lemmas/Dynamics §10`.
@@ -911,12 +915,6 @@ partial-state observations `g = x`, `g = x[:p]`; `f = u`) the error is **zero at
 `A x' + B u' + c1 = f(x', u', t*)` exactly, the matrices do not depend on the reference state / input, and two reference
 points (same time) give the same affine model. Correspondence: the `nls` stream's `affine-exact` oracle evaluates the code's
 `A x' + B u' + c1` at points far from the reference point for every affine component. -/
-
-/-- environments built from vectors of the same lengths at the same time agree on every variable that is not a state /
-input entry -/
-theorem mkEnv_agree (x u : DVec ℝ) (t : ℝ) (x' u' : DVec ℝ) (hx : x'.length = x.length) (hu : u'.length = u.length) :
-    ∀ j, x.length + u.length ≤ j → mkEnv x' u' t j = mkEnv x u t j := fun j hj =>
-  sub_eq_zero.mp (mkEnv_diff_support x u t x' u' hx hu j (by simpa using hj))
 
 /-- **Exactness for affine components of `f`**: if `f_i` is affine in state and input, then for every reference point
 `(x, u, t)` and *every* `(x', u')` of the same dimensions (no smallness assumption)
